@@ -6,6 +6,7 @@ import (
 	"encoding/json"
 	"fmt"
 	"runtime"
+	"sync"
 
 	bitcointypes "github.com/goatnetwork/goat/x/bitcoin/types"
 	"verifharness/mc"
@@ -84,7 +85,7 @@ func runC04(r *mc.Run) {
 		maxLeaves = 17
 	}
 	r.Bounds["max_leaves"] = maxLeaves
-	r.Rule = "full product: tree size x leaf x claimed position in [0,2^(depth+2)) u {2^31,2^32-1} x path variants x root variants (incl. empty, 31/33 bytes and wrong sizes that are multiples of 32) x leaf variants (same); oracle = reference definition (position < 2^len(path) and fold reproduces root)"
+	r.Rule = "full product: tree size x leaf x claimed position in [0,2^(depth+2)) u {2^31,2^32-1} x path variants x root variants (incl. empty, 31/33 bytes and wrong sizes that are multiples of 32) x leaf variants (same); oracle = reference definition (position < 2^len(path) and fold reproduces root); and at the acceptance of deposits: genuine branches for positions {0,1,n/2,n-2,n-1} of blocks with 1..20000 transactions through the real MsgNewDeposits handler must be accepted, the same deposits claimed at position + 2^depth refused"
 	r.Assumptions = []string{"SHA-256 collision resistance is not explored; leaves are pairwise distinct"}
 	type job struct{ n, leaf int }
 	var jobs []job
@@ -160,6 +161,71 @@ func runC04(r *mc.Run) {
 			r.Sample(c04Case{Leaves: j.n, Leaf: j.leaf, Index: uint32(j.leaf), PathVar: "genuine", RootVar: "genuine", LeafVar: "genuine", PathHex: hex.EncodeToString(genuine)})
 		}
 	})
+	c04Acceptance(r)
+}
+
+// c04Acceptance observes the predicate where the chain relies on it: a deposit whose transaction
+// really sits at position p of a block with n transactions, relayed with its genuine branch through
+// the real MsgNewDeposits handler, must be accepted - for small trees and for blocks as large as
+// bitcoin produces (up to 20000 transactions, 15 levels) - and the same deposit claimed at
+// p + 2^depth must be refused.
+func c04Acceptance(r *mc.Run) {
+	sizes := []int{1, 2, 3, 4, 5, 7, 8, 9, 16, 17, 33, 4097, 12195, 12196, 16384, 16385, 20000}
+	type job struct{ n, pos int }
+	var jobs []job
+	for _, n := range sizes {
+		seen := map[int]bool{}
+		for _, p := range []int{0, 1, n / 2, n - 2, n - 1} {
+			if p >= 0 && p < n && !seen[p] {
+				seen[p] = true
+				jobs = append(jobs, job{n, p})
+			}
+		}
+	}
+	r.Bounds["acceptance_block_sizes"] = sizes
+	var mu sync.Mutex
+	var pool []*depWorld
+	get := func() *depWorld {
+		mu.Lock()
+		defer mu.Unlock()
+		if len(pool) > 0 {
+			w := pool[len(pool)-1]
+			pool = pool[:len(pool)-1]
+			return w
+		}
+		w, err := newDepWorld()
+		must(err)
+		return w
+	}
+	mc.Parallel(len(jobs), runtime.NumCPU(), func(i int) {
+		j := jobs[i]
+		w := get()
+		defer func() { mu.Lock(); pool = append(pool, w); mu.Unlock() }()
+		c := &depCase{Pos: j.pos, NTx: j.n, Height: c03Mature, Kind: "v0-secp", Value: 100000}
+		acc, msg, _ := w.eval(c)
+		r.Transitions.Add(1)
+		r.Validated.Add(1)
+		switch {
+		case !acc:
+			r.Violate(mc.Violation{Class: fmt.Sprintf("genuine-proof-refused-at-deposit-acceptance:%d-txs", j.n),
+				Msg: fmt.Sprintf("deposit at position %d of a block with %d transactions, genuine branch: refused (%s)", j.pos, j.n, w.lastErr), Detail: c}, nil)
+		case msg != "":
+			r.Violate(mc.Violation{Class: "deposit-acceptance:" + msg, Msg: fmt.Sprintf("position %d of %d: %s", j.pos, j.n, msg), Detail: c}, nil)
+		default:
+			r.Outcome("genuine-deposit-accepted")
+		}
+		a := &depCase{Pos: j.pos, NTx: j.n, Height: c03Mature, Kind: "v0-secp", Value: 100000, Devs: []string{"idx:+2^depth"}}
+		if acc2, _, _ := w.eval(a); acc2 {
+			r.Violate(mc.Violation{Class: "deposit-accepted-under-position>=2^depth", Msg: fmt.Sprintf("position %d of %d claimed as %d + 2^depth: accepted", j.pos, j.n, j.pos), Detail: a}, nil)
+		} else {
+			r.Outcome("aliased-position-refused")
+		}
+		r.Transitions.Add(1)
+		r.Validated.Add(1)
+	})
+	for _, w := range pool {
+		w.close()
+	}
 }
 
 func replayC04(detail json.RawMessage) (bool, string) {
